@@ -74,7 +74,10 @@ type Step struct {
 type Thread struct {
 	Name   string
 	Daemon bool
-	F      func()
+	// Early threads are started before the initialisation phase and take part in it under the
+	// default schedule (e.g. a server's Start that must be running while init sets the scene).
+	Early bool
+	F     func()
 }
 
 // Exec is one execution.
@@ -328,6 +331,25 @@ func Run(cfg Config, setup func() (init func(), threads []Thread, cleanup func()
 		maxSteps = 20000
 	}
 	init, threads, cleanup := setup()
+	var ts []*G
+	launch := func(i int, t Thread) {
+		g := &G{ID: fmt.Sprintf("T%d", i), wake: make(chan bool), Daemon: t.Daemon}
+		ts = append(ts, g)
+		go func() {
+			defer Exit(g)
+			// Scenario threads do not park at their start: the order in which they begin is
+			// irrelevant because (by construction of the scenarios) a thread touches nothing
+			// shared before its first scheduling point or blocking operation.  Goroutines
+			// spawned by the system under test DO park at their first instruction.
+			e.register(g)
+			t.F()
+		}()
+	}
+	for i, t := range threads {
+		if t.Early {
+			launch(i, t)
+		}
+	}
 	if init != nil {
 		// The initialisation phase runs as a managed goroutine under the default schedule; its
 		// steps are deterministic and are not branch points.
@@ -360,22 +382,24 @@ func Run(cfg Config, setup func() (init func(), threads []Thread, cleanup func()
 			g.wake <- true
 		}
 		synctest.Wait()
+		// let everything the initialisation set in motion settle (default schedule) so that the
+		// branching phase starts from a quiescent, deterministic state
+		for n := 0; n < maxSteps && !e.Deadlock && len(e.Panics) == 0; n++ {
+			c := e.enabled()
+			if len(c) == 0 {
+				break
+			}
+			e.last = c[0]
+			c[0].parked = false
+			c[0].wake <- true
+			synctest.Wait()
+		}
 		e.last = nil
 	}
-	var ts []*G
 	for i, t := range threads {
-		t := t
-		g := &G{ID: fmt.Sprintf("T%d", i), wake: make(chan bool), Daemon: t.Daemon}
-		ts = append(ts, g)
-		go func() {
-			defer Exit(g)
-			// Scenario threads do not park at their start: the order in which they begin is
-			// irrelevant because (by construction of the scenarios) a thread touches nothing
-			// shared before its first scheduling point or blocking operation.  Goroutines
-			// spawned by the system under test DO park at their first instruction.
-			e.register(g)
-			t.F()
-		}()
+		if !t.Early {
+			launch(i, t)
+		}
 	}
 	ticks := 0
 	for step := 0; !e.Deadlock; step++ {
